@@ -263,7 +263,10 @@ struct SharedSink {
 impl Write for SharedSink {
     fn write(&mut self, b: &[u8]) -> std::io::Result<usize> {
         if self.slow && self.n.fetch_add(1, Ordering::Relaxed) % 23 == 0 {
+            // counted like a hook delay so that the deadlock monitor never mistakes it for a stall
+            PENDING_DELAYS.fetch_add(1, Ordering::SeqCst);
             std::thread::sleep(Duration::from_micros(300));
+            PENDING_DELAYS.fetch_sub(1, Ordering::SeqCst);
         }
         self.buf.lock().unwrap().extend_from_slice(b);
         Ok(b.len())
